@@ -285,9 +285,6 @@ func handleHRANDFIELD(params internal.HandlerFuncParams) ([]byte, error) {
 		if err != nil {
 			return nil, errors.New("count must be an integer")
 		}
-		if c == 0 {
-			return []byte("*0\r\n"), nil
-		}
 		count = c
 	}
 
